@@ -8,6 +8,8 @@
 #define VX_OWN_VERIF_POINT 1
 #include "vx_spx.hpp"
 #include <unistd.h>
+#include <dlfcn.h>
+#include <cxxabi.h>
 #include <thread>
 #include <mutex>
 #include <condition_variable>
@@ -395,7 +397,46 @@ struct Explorer
 
 #ifdef VX_TSAN
 static std::atomic<int> g_tsanReports(0);
-extern "C" void __tsan_on_report(void*) { g_tsanReports++; }
+// TSan's debugging interface: kind of the report and the code address of its first memory access, so that a report becomes a signature one can act on
+extern "C" int __tsan_get_report_data(void* report, const char** description, int* count, int* stack_count, int* mop_count, int* loc_count, int* mutex_count, int* thread_count,
+                                      int* unique_tid_count, void** sleep_trace, unsigned long trace_size) __attribute__((weak));
+extern "C" int __tsan_get_report_mop(void* report, unsigned long idx, int* tid, void** addr, int* size, int* write, int* atomic, void** trace, unsigned long trace_size) __attribute__((weak));
+static char g_tsanFirst[512] = "";
+extern "C" void __tsan_on_report(void* rep)
+{
+   if(g_tsanReports++ == 0 && __tsan_get_report_data && __tsan_get_report_mop)
+   {
+      const char* desc = "?";
+      int cnt = 0, sc = 0, mc = 0, lc = 0, mu = 0, tc = 0, ut = 0;
+      void* sleepTrace[4] = {0, 0, 0, 0};
+      __tsan_get_report_data(rep, &desc, &cnt, &sc, &mc, &lc, &mu, &tc, &ut, sleepTrace, 4);
+      std::string where;
+      for(int k = 0; k < mc && k < 2; ++k)
+      {
+         int tid = 0, size = 0, write = 0, atomic = 0;
+         void* addr = nullptr;
+         void* trace[8] = {0, 0, 0, 0, 0, 0, 0, 0};
+         __tsan_get_report_mop(rep, (unsigned long)k, &tid, &addr, &size, &write, &atomic, trace, 8);
+         // innermost frame with a symbol
+         for(int t = 0; t < 8 && trace[t]; ++t)
+         {
+            Dl_info di;
+            if(dladdr(trace[t], &di) && di.dli_sname)
+            {
+               int st = 0;
+               char* dem = abi::__cxa_demangle(di.dli_sname, nullptr, nullptr, &st);
+               std::string fn = (st == 0 && dem) ? dem : di.dli_sname;
+               free(dem);
+               size_t par = fn.find('(');
+               if(par != std::string::npos) fn = fn.substr(0, par);
+               where += std::string(where.empty() ? "" : " vs ") + (write ? "write:" : "read:") + fn;
+               break;
+            }
+         }
+      }
+      snprintf(g_tsanFirst, sizeof g_tsanFirst, "%s:%s", desc ? desc : "?", where.c_str());
+   }
+}
 #endif
 
 // census of writable global objects defined by SoPlex code
@@ -500,6 +541,14 @@ int main(int argc, char** argv)
    {
       int reps = thorough ? 20 : 6;
       std::vector<std::vector<int>> mixes = {{0, 1}, {0, 0}, {0, 6, 2, 3}, {3, 4, 5, 3}, {4, 7, 4, 7}, {9, 8, 9, 8}, {10, 10, 10, 10}, {0, 1, 2, 3, 4, 5, 6, 7, 8, 9, 10, 10, 4, 5, 6, 7}};
+      // development aid: VERIF_TSAN_MIX="10,10,10,10" VERIF_TSAN_REPS=200 runs one mix many times (to hunt a rare report)
+      if(getenv("VERIF_TSAN_MIX"))
+      {
+         std::vector<int> m;
+         for(auto& t : split(getenv("VERIF_TSAN_MIX"), ',')) m.push_back(atoi(t.c_str()));
+         mixes.assign(1, m);
+         if(getenv("VERIF_TSAN_REPS")) reps = atoi(getenv("VERIF_TSAN_REPS"));
+      }
       for(auto& mix : mixes)
          for(int r = 0; r < reps; ++r)
          {
@@ -514,7 +563,7 @@ int main(int argc, char** argv)
             c.count("tsan_threads_run", mix.size());
          }
       int n = g_tsanReports.load();
-      if(n > 0) c.violation("tsan-data-race-report", "free-running", std::to_string(n) + " ThreadSanitizer report(s); see the sanitizer log");
+      if(n > 0) c.violation(std::string("tsan-report:") + (g_tsanFirst[0] ? g_tsanFirst : "unknown"), "free-running", std::to_string(n) + " ThreadSanitizer report(s); first: " + g_tsanFirst + "; see the sanitizer log");
       return n + 1;
    }, [&](uint64_t, uint64_t) { return std::string("free-running"); }, o);
    rep.evaluations = rep.all.counters["tsan_free_runs"];
